@@ -172,6 +172,23 @@ func (c *coreScn) step(st string) {
 	case "sclose":
 		sock := c.sock
 		s.Call(c.thread(), "sclose", "s", nil, func() []interface{} { return []interface{}{"r", sock.Close()} })
+	case "setopt":
+		// "setopt <min> <max> [dialer]": the reconnect times are changed while the dialer is at work (through the socket,
+		// which hands them down, or on the dialer): they apply from the next reset / the next growth on - the delay
+		// reached so far is not touched
+		var mn, mx, where string
+		fmt.Sscanf(arg, "%s %s %s", &mn, &mx, &where)
+		dmin, _ := time.ParseDuration(mn)
+		dmax, _ := time.ParseDuration(mx)
+		var e1, e2 error
+		if where == "dialer" && c.d != nil {
+			e1 = c.d.SetOption(mangos.OptionReconnectTime, dmin)
+			e2 = c.d.SetOption(mangos.OptionMaxReconnectTime, dmax)
+		} else {
+			e1 = c.sock.SetOption(mangos.OptionReconnectTime, dmin)
+			e2 = c.sock.SetOption(mangos.OptionMaxReconnectTime, dmax)
+		}
+		s.Rec.Emit("setopt", "minT", int64(dmin/time.Microsecond), "maxT", int64(dmax/time.Microsecond), "r1", e1, "r2", e2)
 	}
 	s.Q()
 	c.snap()
@@ -285,6 +302,12 @@ func coreScripted() []coreCfg {
 		{Asynch: true, MinT: 100 * ms, MaxT: 400 * ms, HasD: true, Steps: []string{"dial", "ansfail", "adv 100ms", "ansfail", "adv 150ms", "ansfail", "adv 1s", "ansok", "drop p1", "adv 100ms", "ansfail", "adv 1s"}},
 		{Asynch: false, MinT: 100 * ms, MaxT: 0, HasD: true, Steps: []string{"dial", "ansfail", "dial", "ansok", "adv 1s"}},
 		{Asynch: false, MinT: 100 * ms, MaxT: 0, HasD: true, Scripts: []string{"closeAttaching"}, Steps: []string{"dial", "ansok", "adv 100ms", "ansok", "adv 1s"}},
+		// the reconnect times are changed while the dialer is at work: a delay that has grown is kept (new maximum 0 = no
+		// further growth; a lower maximum applies from the next failure on), the new initial value applies after the next
+		// successful connection
+		{Asynch: true, MinT: 100 * ms, MaxT: 400 * ms, HasD: true, Steps: []string{"dial", "ansfail", "adv 100ms", "ansfail", "adv 150ms", "setopt 100ms 0s", "ansfail", "adv 1s", "ansfail", "adv 1s", "ansok", "drop p1", "adv 100ms", "ansfail", "adv 1s"}},
+		{Asynch: false, MinT: 50 * ms, MaxT: 400 * ms, HasD: true, Steps: []string{"dial", "ansok", "setopt 50ms 0s", "drop p1", "adv 50ms", "ansfail", "adv 50ms", "ansfail", "adv 50ms", "ansok", "adv 1s"}},
+		{Asynch: true, MinT: 100 * ms, MaxT: 800 * ms, HasD: true, Steps: []string{"dial", "ansfail", "adv 100ms", "ansfail", "adv 150ms", "ansfail", "adv 300ms", "setopt 20ms 200ms dialer", "ansfail", "adv 1s", "ansfail", "adv 200ms", "ansok", "drop p1", "adv 20ms", "ansok", "adv 1s"}},
 		{HasL: true, MinT: 100 * ms, Scripts: []string{"closeAttaching", "none"}, Steps: []string{"listen", "offer", "offer", "drop p2"}},
 		{HasL: true, MinT: 100 * ms, Scripts: []string{"refuse", "closeAttached", "none"}, Steps: []string{"listen", "offer", "offer", "offer", "appclose p3"}},
 		{HasL: true, MinT: 100 * ms, Scripts: []string{"dropInAdd", "none"}, Steps: []string{"listen", "offer", "offer"}},
